@@ -305,6 +305,15 @@ async fn interp(case: &RetryCase) -> Verdict {
         if t > 40 && task.iter().all(|tk| tk.map_or(false, |k| sim.state(k) != TaskState::Live)) {
             break;
         }
+        // more inner calls than all requests together may ever make: the verdict is already certain
+        let allowed: u64 = case
+            .requests
+            .iter()
+            .map(|r| if case.per_request { r.max_attempts } else { case.max_attempts }.max(1) as u64)
+            .sum();
+        if inner.shared.calls() > allowed || sim.livelock {
+            break;
+        }
     }
 
     let snap = log.snapshot();
